@@ -75,7 +75,13 @@ type c18Verify struct {
 	alpha  int
 }
 
+// C18Emb is embedded in the config: with FlattenAnonymousFields its leaf's YAML key moves to the top level.
+type C18Emb struct {
+	Omega int `dials:"omega"`
+}
+
 type c18Cfg struct {
+	C18Emb
 	ConfigFile string        `dials:"config_file"`
 	Marker     string        `dials:"marker"`
 	Alpha      int           `dials:"alpha"`
@@ -323,6 +329,31 @@ func runC18(w *fw.Worker) {
 				w.Count("file_sets_an_empty_set", 1)
 			}
 		}
+		// the embedded struct's leaf: default / file (YAML, flattened to the top level) / env / flag
+		flattenAnon := false
+		{
+			if r.Bool() {
+				n++
+				cfg.Omega, want.Omega = n, n
+			}
+			if format == "yaml" && mode != "no-file" && mode != "empty-path-reported-set" && r.Chance(60) {
+				flattenAnon = true
+				n++
+				doc["omega"] = n
+				want.Omega = n
+				w.Count("yaml_files_setting_a_flattened_embedded_leaf", 1)
+			}
+			if r.Chance(25) {
+				n++
+				os.Setenv("OMEGA", fmt.Sprint(n))
+				want.Omega = n
+			}
+			if r.Chance(25) {
+				n++
+				argv = append(argv, fmt.Sprintf("--omega=%d", n))
+				want.Omega = n
+			}
+		}
 		// pointer leaves: defaults share one variable in some cases; the file sets at most one of them
 		{
 			shared := 5000 + i
@@ -373,6 +404,7 @@ func runC18(w *fw.Worker) {
 				scn.mu.Unlock()
 			},
 		}
+		params.FlattenAnonymousFields = flattenAnon
 		if kebab {
 			params.DialsTagNameDecoder = caseconversion.DecodeLowerSnakeCase
 			params.FileFieldNameEncoder = caseconversion.EncodeKebabCase
@@ -515,7 +547,7 @@ func runC18(w *fw.Worker) {
 				if k == "config_file" || k == "config-file" {
 					doc2["config_file"] = v
 				}
-				if sk := strings.ReplaceAll(k, "-", "_"); sk == "ptr_a" || sk == "ptr_b" {
+				if sk := strings.ReplaceAll(k, "-", "_"); sk == "ptr_a" || sk == "ptr_b" || sk == "omega" {
 					doc2[sk] = v // the rewritten file keeps the pointer leaves as they were
 				}
 			}
